@@ -343,3 +343,113 @@ PLANS["C12"] = {
         ["expected class of a number comes from the published FORBIDDEN list, the documented panics and this kernel/glibc (0, 32, 33, >64 rejected)"]),
     "floor": floor_counters(scripts_with_err_reject=30, scripts_with_panic_reject=30),
 }
+
+# ------------------------------------------------------------------------------------------- C13 .. C17 (forked probes)
+
+
+def c13_steps(tier, seed):
+    q = tier == "quick"
+    st = [native("pipe-scenarios", ["w_pipe", "--seed", seed, "--cycles", 2000 if q else 50000], timeout=400 if q else 1800)]
+    st.append(strace("pipe-strace", ["w_strace", "--what", "pipe"], oracle="c13"))
+    return st
+
+
+PLANS["C13"] = {
+    "steps": c13_steps,
+    "evidence": assemble(
+        "exploration",
+        "cases = (descriptor kind in {pipe via register_raw, UnixStream, UnixDatagram, blocking pipe, non-blocking pipe} x fill in "
+        "{empty, half, full to EAGAIN}) scenarios, each in a forked child: bursts of 1/7/1/1000/3 synchronous deliveries with the "
+        "wake attempts per delivery counted at the PIPE_WAKE failpoint, bytes read vs deliveries after each drain, descriptor state "
+        "(fcntl) before/after unregister and after re-use of the number, 5 rejected registrations (forbidden, 0, 65, -1) and 2 "
+        "invalid descriptors, plus register/unregister cycles with descriptor-number reuse; a child that stays blocked in "
+        "write/sendto (stable per /proc) is the 'blocks on a full descriptor' verdict; plus one run under strace -f whose trace is "
+        "checked per delivery bracket (exactly one 1-byte write/sendto on the fd) and per fd (closed once, never written after)",
+        ["socket kinds are handed over in blocking mode on purpose; descriptor-number reuse cannot be confused because the child is single-threaded"]),
+    "floor": floor_counters(register_unregister_cycles=100, strace_brackets=5),
+}
+
+
+def c14_steps(tier, seed):
+    q = tier == "quick"
+    st = [native("forbid-grid", ["w_forbid", "--seed", seed, "--full"], timeout=600)]
+    if not q:
+        st.append(valgrind("forbid-valgrind", ["w_forbid", "--seed", seed], timeout=3000))
+    return st
+
+
+PLANS["C14"] = {
+    "steps": c14_steps,
+    "evidence": assemble(
+        "exploration",
+        "complete grid, one forked child per case: 16 registration entry points (registry x4 + re-export, flag x4, pipe x2, "
+        "Signals::new, SignalsInfo<WithRawSiginfo|WithOrigin>::new, Handle::add_signal, SignalDelivery::with_pipe) x 140 numbers "
+        "([-2,130] + {i32::MIN, i32::MIN+1, -129, 255, 256, 65536, i32::MAX}) x {fresh process, after 5 other signals registered}; "
+        "oracle: outcome class {Ok, Err, catchable panic, process death} against the published FORBIDDEN list / documented panics / "
+        "this kernel; after a non-Ok outcome: all 64 dispositions and the fd table unchanged, a witness action still runs once per "
+        "delivery, captured Arcs have strong count 1, handed-over descriptors are closed, a valid registration through the same "
+        "entry point works; distinct = (entry point, number, outcome class)",
+        ["expected classes are those of this kernel/glibc (1..64 minus KILL, STOP, 32, 33 accepted)"],
+        exhaustive=True),
+    "floor": floor_counters(outcomes_panic=100, outcomes_err=1000, outcomes_ok=500),
+}
+
+
+def c15_steps(tier, seed):
+    q = tier == "quick"
+    return [native("flag-scripts", ["w_flag", "--seed", seed, "--scripts", 800 if q else 30000], timeout=600 if q else 3000)]
+
+
+PLANS["C15"] = {
+    "steps": c15_steps,
+    "evidence": assemble(
+        "exploration",
+        "cases = sequential scripts in forked children: the complete grid of the documented 'shutdown first, arming flag second' "
+        "recipe for every history over {deliver, disarm} up to length 6 in both registration orders (252 scripts) + random scripts "
+        "over {set, clear, deliver} x status 0..255 x signals TERM/QUIT/INT/HUP/USR1/USR2/ALRM/RTMIN+2 x "
+        "{conditional_shutdown, conditional_default on ignore-kind and terminate-kind signals}; oracle = the script's own model "
+        "(at which delivery the process must end), waitpid status, STEP/SURVIVED markers, an atexit marker and an action "
+        "registered after the shutdown that must not run in the terminating delivery; flags register/register_usize are reset to "
+        "garbage by the application before each delivery; distinct = (kind, signal, order, arming, # deliveries until the end)",
+        ["single-threaded children: the condition's value at each delivery is known exactly"]),
+    "floor": floor_counters(scripts_terminated=100, scripts_survived=50),
+}
+
+
+def c16_steps(tier, seed):
+    return [native("default-grid", ["w_default", "--seed", seed], timeout=600)]
+
+
+PLANS["C16"] = {
+    "steps": c16_steps,
+    "evidence": assemble(
+        "exploration",
+        "complete grid of paired forked probes: n in 1..64 + {0, -1, 65, 100, 128, 1000} x context {plain call, from inside the "
+        "signal's own registered action, with the signal blocked}; native probe = all dispositions default, everything unblocked, "
+        "raise(n); emulated probe = emulate_default_handler(n); both with RLIMIT_CORE=0, in a process group of their own whose "
+        "parent lives in another group (not orphaned), waited for with WUNTRACED; classes {terminated by that signal, stopped, "
+        "continues, returned Err}; names against glibc's sigabbrev_np plus libc's alias constants",
+        ["the oracle is this kernel and this glibc"],
+        exhaustive=True),
+}
+
+
+def c17_steps(tier, seed):
+    return [native("origin", ["w_origin", "--seed", seed, "--full"], timeout=900),
+            native("origin-via-iterator-under-fire", ["w_iter", "--instances", 9, "--rounds", 20, "--seed", seed, "--only", "WithOrigin"], timeout=600)]
+
+
+PLANS["C17"] = {
+    "steps": c17_steps,
+    "evidence": assemble(
+        "exploration",
+        "synthetic complete grid: hand-built siginfo records si_signo 1..64 x si_code in [-70,200] + {0x80}, union poisoned, checked "
+        "against a table written from signal(7)/sigaction(2); real probes in forked children through SignalsInfo<WithOrigin> and "
+        "Origin::extract on the raw record of the same delivery: kill, raise, tgkill, sigqueue, kill from a forked child for every "
+        "catchable signal, child exit / kill / stop / continue, setitimer REAL/VIRTUAL/PROF, timer_create, SIGPIPE; ground truth = "
+        "the mechanism used, getpid/getuid/child pid and libc's si_pid()/si_uid() accessors on the same record",
+        ["mq_notify is not exercised (no mqueue needed for the claim: MesgQ is covered by the synthetic grid only)",
+         "the synthetic grid is exhaustive; the real probes are one run per (mechanism, signal)"],
+        exhaustive=False),
+    "floor": floor_counters(synthetic_records=17000, real_probes=200),
+}
